@@ -31,6 +31,8 @@ thread_local! {
     static LAST_PANIC: RefCell<Option<String>> = const { RefCell::new(None) };
 }
 
+pub static LAST_PANIC_GLOBAL: std::sync::Mutex<Option<String>> = std::sync::Mutex::new(None);
+
 pub fn install_panic_hook() {
     std::panic::set_hook(Box::new(|info| {
         let loc = info.location().map(|l| format!("{}:{}", l.file(), l.line())).unwrap_or_default();
@@ -41,6 +43,9 @@ pub fn install_panic_hook() {
         } else {
             "<non-string panic>".to_string()
         };
+        if let Ok(mut g) = LAST_PANIC_GLOBAL.lock() {
+            *g = Some(format!("{msg} @ {loc}"));
+        }
         LAST_PANIC.with(|p| *p.borrow_mut() = Some(format!("{msg} @ {loc}")));
     }));
 }
